@@ -199,6 +199,11 @@ def templates(rnd):
     objs = [chan("q", 4, n), chan("b", 5, n), chan("f", 9, n)]
     rnd.shuffle(objs)
     out.append(("interleaved", [seg(objs, [[values(o) for o in objs] for _ in range(rnd.randint(1, 3))], interleaved=True)]))
+    # the interleaved flag on a segment whose only channel holds strings (strings cannot be interleaved; with one channel the bytes
+    # are those of a contiguous segment and the reader accepts them)
+    for _ in range(2):
+        objs = [chan("s", 0x20, rnd.randint(2, 6), rnd.randint(2, 12))]
+        out.append(("interleaved flag, lone string channel", [seg(objs, [[values(o) for o in objs] for _ in range(rnd.randint(1, 2))], interleaved=True)]))
     # data segment followed by a metadata-only segment / by a segment without metadata
     objs = [chan("i", 3, 2), chan("d", 10, 1)]
     first = seg(objs, [[values(o) for o in objs] for _ in range(2)], big=False)
@@ -239,12 +244,17 @@ def run(ctx):
     for rounds in range(1 if ctx.tier == "quick" else 12):
         for label, segs in templates(ctx.rnd):
             e = model.ask(gen_files.to_line(segs))
-            if not e.get("ok") or not e.get("wf"):
+            tmodel = model
+            if e.get("ok") and not e.get("wf") and label.startswith("interleaved flag"):
+                # outside the spec's well-formed files (strings cannot be interleaved) but read by the reader: the cut-file oracle
+                # (prefix of the complete read) applies on the real code alone, without the model
+                tmodel = None
+            elif not e.get("ok") or not e.get("wf"):
                 ctx.notes.append("template %r is not a well-formed encoding: %s" % (label, str(e)[:80]))
                 continue
             stats["templates"] += 1
             feats["template " + label] = feats.get("template " + label, 0) + 1
-            d, v = check_file(ctx, model, nptdms, bytes.fromhex(e["file"]), stats, True, False, False)
+            d, v = check_file(ctx, tmodel, nptdms, bytes.fromhex(e["file"]), stats, True, False, False)
             for x in v:
                 x.what = "[template %s] %s" % (label, x.what)
             disagreements += d
@@ -284,7 +294,7 @@ def run(ctx):
     return dict(violations=violations[:5], disagreements=disagreements[:20],
                 coverage=dict(evaluations=stats["cuts"] + stats["lazy"], distinct_nontrivial=nontrivial,
                               rule="template files first (strings among fixed-width channels, wide/narrow types, interleaved, metadata-only last segment, last "
-                                   "segment without metadata, DAQmx over several raw buffers; every offset); then generated files (standard, every sixth DAQmx; up to 4 segments; explicit next-segment offset or the length-unknown marker) cut at every "
+                                   "segment without metadata, DAQmx over several raw buffers, the interleaved flag on a lone string channel (real code only: outside the spec's well-formed files); every offset); then generated files (standard, every sixth DAQmx; up to 4 segments; explicit next-segment offset or the length-unknown marker) cut at every "
                                    "byte offset 4..len for small files / every fifth file / thorough tier, otherwise at all offsets inside raw data (sampled above 120), all "
                                    "lead-in/metadata/segment boundaries +-2 and 60 random offsets; eager and lazy; non-trivial = files holding raw data",
                               samples=samples or [dict(note="see feature_counts")], counts=stats, feature_counts=dict(sorted(feats.items()))))
